@@ -35,9 +35,14 @@ def get_tree(rep, f, rule, ident, level="op", inline_extra=(), keep=()):
 _N = norm.Normalizer("E", opcomm=True)
 
 def expect_equiv(rep, rule, inst, key, got, ref, body, what, leaf_eq=D.default_leaf_eq, **kw):
-    got = D.map_terms(got, _N.norm); ref = D.map_terms(ref, _N.norm)
+    got = D.map_terms(got, _N.norm)
+    refs = ref if isinstance(ref, list) else [ref]
+    m = None
     try:
-        m = D.equivalent(got, ref, leaf_eq)
+        for r_ in refs:
+            m = D.equivalent(got, D.map_terms(r_, _N.norm), leaf_eq)
+            if m is None:
+                break
     except RuntimeError as e:
         rep.fail(rule, inst, key + ":budget", "comparison of %s exceeded its budget: %s" % (inst, e), where=H.where(body)); return False
     if m is None:
@@ -163,17 +168,19 @@ def check_C06(ctx, rep):
 
 # ------------------------------------------------------------------ C07
 
-def no_overlap_ref():
-    """reference form of Definition 1.4 (DESIGN appendix B.1); offsets derived from the format"""
+def no_overlap_ref(ity="i16"):
+    """reference form of Definition 1.4 (DESIGN appendix B.1); offsets derived from the format.
+    `ity` is the integer type the exponent difference is computed in (any type that holds
+    -1077..2047 gives the same values)"""
     a, b = P(0), P(1)
     bias, p = 1023, 53
     half_off = bias + p            # 1076: exponent offset of half an ulp
     quarter_off = half_off + 1     # 1077: below a power of two the spacing halves
     bits = call("core::f64::<impl f64>::to_bits", a)
     fabs = call("libm::fabs", b)
-    e = mk("cast", "IntToInt", "u64", "i16", mk("i", "bitand", "u64", mk("i", "shr", "u64", bits, mk("const", "u32", 52)), mk("const", "u64", 0x7ff)))
+    e = mk("cast", "IntToInt", "u64", ity, mk("i", "bitand", "u64", mk("i", "shr", "u64", bits, mk("const", "u32", 52)), mk("const", "u64", 0x7ff)))
     def limit(off):
-        return call("libm::exp2", mk("cast", "IntToFloat", "i16", "f64", mk("i", "sub", "i16", e, mk("const", "i16", off))))
+        return call("libm::exp2", mk("cast", "IntToFloat", ity, "f64", mk("i", "sub", ity, e, mk("const", ity, off))))
     even = cmp("eq", mk("i", "bitand", "u64", bits, mk("const", "u64", 1)), mk("const", "u64", 0), "u64")
     def decide(off):
         return ("rel", fabs, limit(off), "f64", {"lt": RET(TRUE), "eq": IF(even, RET(TRUE), RET(FALSE)), "gt": RET(FALSE), "un": RET(FALSE)})
@@ -222,7 +229,7 @@ def check_C07(ctx, rep):
     # R18 the predicate itself
     t, body = get_tree(rep, f, "R18", "fn:no_overlap")
     if t is not None:
-        expect_equiv(rep, "R18", "no_overlap reference form", "no-overlap-form", D.expand_bool_leaves(t), no_overlap_ref(), body,
+        expect_equiv(rep, "R18", "no_overlap reference form", "no-overlap-form", D.expand_bool_leaves(t), [no_overlap_ref(i) for i in ("i16", "i32", "i64", "isize")], body,
                      "classify(a): Normal -> b==0 or |b| < 2^(E-1076) (2^(E-1077) below a power of two towards smaller magnitude), tie accepted iff mantissa even; Zero/Subnormal -> b==0; else false (proof: DESIGN B.1)")
     rep.floor("R17", len([o for o in rep.obl if o["rule"] == "R17"]), 7, "composition instances")
 
